@@ -158,6 +158,15 @@ def cases(tier):
                        'else': 0, 'reref': None, 'syntax': s}
     yield {'form': 'special'}
     yield {'form': 'late'}
+    for pre in ('\r\n', '\x0c\n', '\xa0\n', '\u2028\n', '\x0b \n', '\x85\n',
+                '\r', '\u3000\n', 'x \n'):
+        for n in (1, 2):
+            for truth in itertools.product((0, 1), repeat=n):
+                for has_else in (0, 1):
+                    for s in syntaxes:
+                        yield {'form': 'if', 'kinds': ['name'] * n,
+                               'truth': list(truth), 'else': has_else,
+                               'reref': None, 'bodypre': pre, 'syntax': s}
     for rows in (50, 150, 201, 250, 700):
         for conds in ('tmpl', 'probe'):
             for wrap in ('in', 'try'):
@@ -399,6 +408,13 @@ def build(case):
                 els = []
             else:
                 branches[e][1] = []
+        if case.get('bodypre'):
+            # every section begins with white space that is not "blanks
+            # ending in a newline": it belongs to the section
+            for br in branches:
+                br[1] = [T(case['bodypre'])] + br[1]
+            if els is not None:
+                els = [T(case['bodypre'])] + els
         nodes = [T('<'), ['if', branches, els], T('>')]
     elif case['form'] == 'siblings':
         c = N('c0')
